@@ -113,7 +113,10 @@ def is_flag_list_loose(flags, lines):
 
 
 def units():
-    return [_flags_unit(a) for a in ARRANGEMENTS] + _flawed_units() + [_reparse_unit()]
+    from pyvc.api import borrow
+    from props import c20
+    # the flags SecFinder itself raises (colon modes, second pass) are part of 'flags are paired one-to-one with their lines'
+    return [_flags_unit(a) for a in ARRANGEMENTS] + _flawed_units() + [_reparse_unit()] + borrow(c20._finder_units(), 'C10')
 
 
 # ======================================================================================================================
